@@ -20,11 +20,22 @@ import zoo
 import zoo_c08
 
 PROPERTY = "C08"
-LEAN_MODULE = "PyOak.Props.C08"
+LEAN_MODULE = "PyOak.Props.C08All"
 THEOREMS = ["PyOak.C08." + t for t in [
     "run_eq_spec", "match_eq_spec", "match_iff", "fail_empty", "no_unbound", "caps_nodup", "captures_exact",
     "multi_eq_spec", "multi_first", "setName_keeps_tail", "tail_length_exact",
     "pat_ok", "fields_ok", "fspec_ok", "items_ok", "val_ok", "setName_spec", "pat_total", "pat_seen", "pat_keys", "pat_perm",
+]]
+# Props/C08Rel.lean, Props/C08Captures.lean (after AUDIT.md): the inductive relation `Matches` (Spec/PatternRel.lean)
+# = the functional spec = the matcher graph; general capture exactness; MultiPatternMatcher.__init__ as a model
+# definition (Model/PatternMulti.lean, called by the handler) with the table hypothesis of multi_eq_spec derived;
+# content equality for `$x` on nodes through C01.isEqual_iff
+THEOREMS += ["PyOak.C08." + t for t in [
+    "matches_iff", "matches_unique", "no_match_iff", "match_iff_matches", "nomatch_iff_matches",
+    "cap_field", "cap_item", "cap_tail", "caps_inner_field", "caps_inner_item", "lookup_of_mem", "capture_lookup",
+    "caps_are_parts",
+    "hasDup_false_iff", "multiInit_some_iff", "multiInit_none_iff", "multiInit_htbl", "multi_text_eq_spec",
+    "multiRun_first", "var_node_contentEq",
 ]]
 RULE = ("patterns derived from the target node (class alternatives incl. super/other classes and '*', 0-4 field "
         "specs over property / single / optional / tuple child fields, nested patterns to depth 3, bracketed "
